@@ -23,7 +23,7 @@ type c09Case struct {
 	QuoteIt [][]int    `json:"quoteIt"` // per field: 0 = raw if possible, k>0 = wrap in quote symbol k-1 (mod len)
 	// how the tokenizer gets its configuration: the order of the setter calls, a SetEndOfLine call somewhere among
 	// them, and setter calls with an invalid value (they panic by contract and must leave nothing behind)
-	Setup []string `json:"setup,omitempty"` // sequence out of: seps quotes eol:<text> badseps badquotes
+	Setup []string `json:"setup,omitempty"` // sequence out of: seps quotes eol:<text> badseps badquotes use:<text>
 }
 
 // c09Configure applies the configuration calls; "badseps" / "badquotes" are calls the tokenizer must reject
@@ -45,6 +45,9 @@ func c09Configure(t *csv.CsvTokenizer, c c09Case) {
 			t.SetQuoteSymbols(c.Quotes)
 		case strings.HasPrefix(s, "eol:"):
 			t.SetEndOfLine(strings.TrimPrefix(s, "eol:"))
+		case strings.HasPrefix(s, "use:"):
+			// the tokenizer is used (under whatever configuration it has at this point) before it is configured further
+			t.TokenizeBuffer(strings.TrimPrefix(s, "use:"))
 		case s == "badseps":
 			rejected(func() { t.SetFieldSeparators([]rune{'#', t.QuoteSymbols()[0]}) })
 		case s == "badquotes":
@@ -364,6 +367,10 @@ func TestC09_Rapid(t *testing.T) {
 			// and rejected calls sprinkled in between
 			valid := rapid.Permutation([]string{"seps", "quotes"}).Draw(rt, "order")
 			extras := []string{"eol:\n", "eol:\r", "eol:\r\n", "eol:\n\r", "eol:", "badseps", "badquotes"}
+			// texts tokenized in between, ending in a character whose class the later calls change
+			for _, r := range append(append([]rune{}, seps...), quotes...) {
+				extras = append(extras, "use:a"+string(r), "use:"+string(r), "use:"+string(r)+"b"+string(r))
+			}
 			for pos := 0; pos <= 2; pos++ {
 				for k := rapid.IntRange(0, 2).Draw(rt, "nextra"); k > 0; k-- {
 					c.Setup = append(c.Setup, rapid.SampledFrom(extras).Draw(rt, "extra"))
